@@ -46,7 +46,10 @@ MultiEntries(bases, ty) ==
 DForms == [n \in 1..6 |-> <<KeyName("d", M(AllForms[n], "cardinal")), StrNode(<<"d", "DASH">> \o FormText(M(AllForms[n], "cardinal")))>>]
 FkCountTo(b, i) == <<"DOL", "t", "LP", b, "COMMA", "SP", "LB", "QUOT", "c", "o", "u", "n", "t", "QUOT", "COLON", "SP">> \o CountSym[i] \o <<"RB", "RP">>
 EKeys == [i \in DOMAIN CountToks |-> <<"e" \o ToString(i), StrNode(FkCountTo("d", i))>>]
-MultiFileOf(loc) == MapNode(MultiEntries(MultiTop, "cardinal") \o << <<"g", MapNode(MultiEntries(MultiNested, "ordinal"))>> >>
+\* and, sorting BEFORE all of them at both levels, two sibling keys that merely look like plural forms (`a0_one`, `a0_two`, no
+\* `_other`): they stay ordinary keys and must not disturb the diagnostics of the plurals that follow
+Lookalikes == << <<"a0_one", StrNode(<<"x">>)>>, <<"a0_two", StrNode(<<"y">>)>> >>
+MultiFileOf(loc) == MapNode(Lookalikes \o MultiEntries(MultiTop, "cardinal") \o << <<"g", MapNode(Lookalikes \o MultiEntries(MultiNested, "ordinal"))>> >>
                             \o (IF loc = "en" THEN DForms ELSE << <<"d", NullNode>> >>) \o EKeys)
 MultiCase ==
     [family |-> "plurals-multi",
